@@ -6,8 +6,8 @@ import (
 
 	"github.com/holiman/uint256"
 	ctrlertypes "github.com/rigochain/rigo-go/ctrlers/types"
-	"github.com/rigochain/rigo-go/libs/verifhook"
 	"github.com/rigochain/rigo-go/ledger"
+	"github.com/rigochain/rigo-go/libs/verifhook"
 	"github.com/rigochain/rigo-go/types/crypto"
 	tmjson "github.com/tendermint/tendermint/libs/json"
 	tmtypes "github.com/tendermint/tendermint/types"
@@ -16,21 +16,21 @@ import (
 
 // TxSpec describes a transaction to build (possibly malformed on purpose).
 type TxSpec struct {
-	Version  uint32
-	Time     int64
-	Nonce    uint64
-	From, To []byte
-	Amount   *uint256.Int
-	Gas      uint64
-	GasPrice *uint256.Int
-	Type     int32
-	Payload  ctrlertypes.ITrxPayload // nil = none
-	RawXPayload []byte               // if non-nil, replaces the encoded payload bytes
-	Signer   *Key                    // nil = unsigned
-	SignChain string                 // chain id the signature is made for
-	Mutate   func(tx *ctrlertypes.Trx) // applied after signing (field tampering)
-	SigFlip  int                     // >0: flip bit (SigFlip-1) of the signature
-	Junk     []byte                  // appended to the protobuf bytes (unknown field) if non-nil
+	Version     uint32
+	Time        int64
+	Nonce       uint64
+	From, To    []byte
+	Amount      *uint256.Int
+	Gas         uint64
+	GasPrice    *uint256.Int
+	Type        int32
+	Payload     ctrlertypes.ITrxPayload   // nil = none
+	RawXPayload []byte                    // if non-nil, replaces the encoded payload bytes
+	Signer      *Key                      // nil = unsigned
+	SignChain   string                    // chain id the signature is made for
+	Mutate      func(tx *ctrlertypes.Trx) // applied after signing (field tampering)
+	SigFlip     int                       // >0: flip bit (SigFlip-1) of the signature
+	Junk        []byte                    // appended to the protobuf bytes (unknown field) if non-nil
 }
 
 func (s *TxSpec) Build() []byte {
